@@ -41,6 +41,7 @@ def prelude(kind):
     helpers = [
         same,
         A.FuncStmt("ident", [V("v")], False, [A.Return(V("v"))]),
+        A.FuncStmt("mklit", [], False, [A.Return(A.lst(A.lst(I(0)), I(0)) if kind == "list" else A.obj(("k", A.obj(("k", I(0)), ("m", I(0)))), ("m", I(0))))]),
         A.FuncStmt("mk", [V("v")], False, [A.Return(A.FuncE([], False, [A.Return(V("v"))]))]),
         A.FuncStmt("setfirst", [V("t"), V("v")], False, [A.Assign(A.Index(V("t"), I(0)) if kind == "list" else A.Prop(V("t"), "k", False), V("v")), A.Assign(V("t"), A.Null())]),
         A.FuncStmt("rebuild", [V("t")], False, [A.OpAssign("+", V("t"), A.lst(I(0))) if kind == "list" else A.Assign(V("t"), A.ObjectE([A.Single(V("t"), True, False)])), A.Return(V("t"))]),
@@ -63,6 +64,12 @@ def ops(kind):
     O["store_second"] = lambda X, Y, v: [A.Assign(second(X), V(Y))]
     O["take_element"] = lambda X, Y, v: [A.Assign(V(X), wrap(first(Y)))]
     O["fresh_literal"] = lambda X, Y, v: [A.Assign(V(X), wrap(wrap(I(v))))]
+    other = lambda X: VARS[(VARS.index(X) + 1) % 3]
+    # the same literal expression evaluated twice (two calls; two loop iterations) builds two containers
+    O["literal_site_twice_calls"] = lambda X, Y, v: [A.Assign(V(X), A.call("mklit")), A.Assign(V(other(X)), A.call("mklit"))]
+    O["literal_site_twice_loop"] = lambda X, Y, v: [A.Declare(V("ls%d" % v), A.lst()),
+                                                    A.For(V("_"), A.lst(I(1), I(2)), [A.OpAssign("+", V("ls%d" % v), A.lst(wrap(wrap(I(0)))))]),
+                                                    A.Assign(V(X), A.Index(V("ls%d" % v), I(0))), A.Assign(V(other(X)), A.Index(V("ls%d" % v), I(1)))]
     O["copy_spread"] = lambda X, Y, v: [A.Assign(V(X), A.ListE([(V(Y), True)], False) if L else A.ObjectE([A.Single(V(Y), True, False)]))]
     O["copy_in_callee"] = lambda X, Y, v: [A.Assign(V(X), A.call("rebuild", V(Y)))]
     O["mutate_first"] = lambda X, Y, v: [A.Assign(first(X), I(v))]
